@@ -106,8 +106,11 @@ def check(prog, rep, tier):
         rep.bad('R14.b', 'route-refresh', file=rp.file, line=rp.node.lineno, func=rp.qualname,
                 found='parse %s construct %s' % (pfmt, cfmt), expected='HBB both ways', key='route-refresh')
     # field order of RR construct: afi, res, safi
-    order = [x[2] for x in sorted((n.lineno, n.col_offset, src_of(n.args[1])) for n in ast.walk(rc.node)
-                                  if isinstance(n, ast.Call) and src_of(n.func) == 'struct.pack' and len(n.args) > 1)]
+    order = []
+    for x in sorted(((n.lineno, n.col_offset, n) for n in ast.walk(rc.node)
+                     if isinstance(n, ast.Call) and src_of(n.func) == 'struct.pack' and len(n.args) > 1),
+                    key=lambda z: z[:2]):
+        order.extend(src_of(a) for a in x[2].args[1:])
     if order == ['self.afi', 'self.res', 'self.safi']:
         rep.ok('R14.b', 'route-refresh-order', file=rc.file, line=rc.node.lineno)
     else:
@@ -172,7 +175,19 @@ def check(prog, rep, tier):
                     out.add(v)
         return out
     enc = branch_codes(cc, 'capa_code')
-    dec = branch_codes(op, 'capa_code')
+    dec = set()
+    ocls = prog.cls(OPEN)
+    for meth in ocls.methods.values():
+        dec |= branch_codes(meth, 'capa_code')
+        # presence-only capabilities may be dispatched through a dictionary keyed by the code constants
+        for n in ast.walk(meth.node):
+            if isinstance(n, ast.Dict):
+                for k in n.keys:
+                    if isinstance(k, ast.Attribute) and k.attr.isupper():
+                        try:
+                            dec.add(prog.class_const(cap, k.attr))
+                        except NotConst:
+                            pass
     rep.floor('R14.c', 'capability codes emitted', len(emitted), 7)
     for code in sorted(emitted):
         key = 'cap-code:%d' % code
@@ -196,10 +211,11 @@ def check(prog, rep, tier):
                       'AFI/SAFI only the last one survives' % k, expected='accumulate', key=key)
     # unknown-code fallback in Open.parse
     fb = False
-    for n in ast.walk(op.node):
-        if isinstance(n, ast.Assign) and isinstance(n.targets[0], ast.Subscript) and \
-                'str(capability.capa_code)' in src_of(n.targets[0]):
-            fb = True
+    for meth in ocls.methods.values():
+        for n in ast.walk(meth.node):
+            if isinstance(n, ast.Assign) and isinstance(n.targets[0], ast.Subscript) and \
+                    'str(capability.capa_code)' in src_of(n.targets[0]):
+                fb = True
     if fb:
         rep.ok('R14.c', 'cap-unknown-kept', file=op.file, line=op.node.lineno)
     else:
